@@ -120,6 +120,15 @@ def _havoc(interp, frame, spec, modified_names, tag):
             continue
         frame.locals[name] = ty.make(interp, '%s@%s' % (name, tag))
     for name, ty in spec.modifies.items():
+        if hasattr(ty, 'havoc_in_place'):
+            # mutable (ghost) state of an object reached through a local: havocked in place, identity kept
+            obj = None
+            for k, part in enumerate(name.split('.')):
+                obj = frame.locals.get(part) if k == 0 else interp.getattr(obj, interp.mangle(part, frame.info.class_name))
+            if obj is None:
+                raise Unsupported('modifies entry %r: unknown object' % name)
+            ty.havoc_in_place(interp, obj, '%s@%s' % (name, tag))
+            continue
         if name.startswith('ghost:'):
             # ghost state (interp.st.ghost) changed by models/contracts called in the body
             interp.st.ghost[name[6:]] = ty.make(interp, '%s@%s' % (name, tag))
@@ -224,6 +233,7 @@ def exec_for(interp, node, frame):
     src = interp.eval(node.iter, frame)
     if isinstance(src, (SOpt, SChoice)):
         src = interp.resolve(src)
+    src = models.as_siter(interp, src)
     if isinstance(src, (SList, models.SIter, models.SEnumerate)):
         return _for_symbolic(interp, node, frame, src)
     spec, ordinal = find_spec(interp, frame, node)
@@ -282,6 +292,8 @@ def _for_symbolic(interp, node, frame, src):
     if which == 0:
         i = st.fresh_int('_i@' + tag)
         st.assume(z3.And(i >= start, i < n))
+        if isinstance(ordinal, int):
+            frame.locals['_i%d' % ordinal] = wrap(i)      # visible to invariants of inner loops
         st.assume(interp.truth(_call_pred(interp, spec.invariant, env(i))))
         x = models.slist_elem(interp, xs, i)
         if enum_start is not None:
@@ -294,10 +306,16 @@ def _for_symbolic(interp, node, frame, src):
             if r[0] == 'break':
                 return None
             return r
-        inv2 = interp.truth(_call_pred(interp, spec.invariant, env(i + 1)))
+        nxt = i + 1
+        if it_cell is not None:
+            # the body may itself have consumed more of the iterator (e.g. `f.writelines(lines)`)
+            nxt = to_z3(it_cell.pos) if not isinstance(it_cell.pos, int) else z3.IntVal(it_cell.pos)
+        inv2 = interp.truth(_call_pred(interp, spec.invariant, env(nxt)))
         st.oblige(label + ' invariant[preserved]', inv2, {'kind': 'loop-preserve'})
         raise PathAbort()
     # exit: all elements consumed
+    if isinstance(ordinal, int):
+        frame.locals['_i%d' % ordinal] = wrap(n)
     st.assume(start <= n)
     st.assume(interp.truth(_call_pred(interp, spec.invariant, env(z3.If(start <= n, n, start)))))
     if it_cell is not None:
